@@ -1,15 +1,21 @@
 pub mod c01;
 pub mod c02;
+pub mod c03;
 pub mod c04;
 pub mod c05;
+pub mod c06;
 pub mod c07;
+pub mod c0xw;
+pub mod c07w;
 pub mod c08;
 pub mod c09;
 pub mod simcommon;
 pub mod c10;
 pub mod c11;
+pub mod c12;
 pub mod c13;
 pub mod c13w;
+pub mod c14;
 pub mod c15;
 pub mod c16;
 pub mod c16w;
@@ -23,14 +29,18 @@ pub fn run(ctx: &Ctx, id: &str) -> bool {
     match id {
         "C01" => c01::run(ctx),
         "C02" => c02::run(ctx),
+        "C03" => c03::run(ctx),
         "C04" => c04::run(ctx),
         "C05" => c05::run(ctx),
+        "C06" => c06::run(ctx),
         "C07" => c07::run(ctx),
         "C08" => c08::run(ctx),
         "C09" => c09::run(ctx),
         "C10" => c10::run(ctx),
         "C11" => c11::run(ctx),
+        "C12" => c12::run(ctx),
         "C13" => c13::run(ctx),
+        "C14" => c14::run(ctx),
         "C15" => c15::run(ctx),
         "C16" => c16::run(ctx),
         "C17" => c17::run(ctx),
@@ -44,14 +54,18 @@ pub fn replay(ctx: &Ctx, id: &str, part: &str, case: &Value) -> bool {
     match id {
         "C01" => c01::replay(ctx, part, case),
         "C02" => c02::replay(ctx, part, case),
+        "C03" => c03::replay(ctx, part, case),
         "C04" => c04::replay(ctx, part, case),
         "C05" => c05::replay(ctx, part, case),
+        "C06" => c06::replay(ctx, part, case),
         "C07" => c07::replay(ctx, part, case),
         "C08" => c08::replay(ctx, part, case),
         "C09" => c09::replay(ctx, part, case),
         "C10" => c10::replay(ctx, part, case),
         "C11" => c11::replay(ctx, part, case),
+        "C12" => c12::replay(ctx, part, case),
         "C13" => c13::replay(ctx, part, case),
+        "C14" => c14::replay(ctx, part, case),
         "C15" => c15::replay(ctx, part, case),
         "C16" => c16::replay(ctx, part, case),
         "C17" => c17::replay(ctx, part, case),
